@@ -66,6 +66,13 @@ func properties() []*propDef {
 			Assumptions: []string{"ANTLR's precedence-climbing scheme: level = number of alternatives - index"},
 		},
 		{
+			ID: "C12", Title: "`is` and `as` agree with the FHIR and System type hierarchies",
+			Rules: []ruleFn{ruleTYP2, ruleTYP4, ruleTYP5, ruleTYP6, ruleNAV1},
+			Explanation: "TYP2: parent() is evaluated by SCCP for every primitive, every datatype and resource of the registries, the base types and every nested backbone component name of the schema (registries modelled from the dummy lists), and compared with the frozen R4 hierarchy — in particular only resources derive from DomainResource. TYP6: `is` over 28 specifier pairs (same/different namespace, ancestors, siblings) through the recursive parent walk. TYP4: unqualified names resolve FHIR first then System, case-sensitively; unknown names/namespaces are errors that the visitor tests. TYP5: TypeOf/As look through the oneof named \"choice\"; As returns the item iff Is. NAV1: the choice discriminator covers every choice wrapper.",
+			NotDecided: []string{"the type of every element of every resource (TypeOf reads the proto descriptor name at run time)", "name collisions between nested components and resources (Patient.communication vs Communication): the type name alone cannot distinguish them"},
+			Assumptions: []string{"R4 hierarchy excerpt frozen in rules_c12.go"},
+		},
+		{
 			ID: "C13", Title: "Conversion functions are mutually consistent and round-trip through strings",
 			Rules: []ruleFn{ruleCNV1, ruleCNV34, ruleTAB1},
 			Explanation: "CNV1: each convertsToT calls exactly toT on its own input and (SCCP with that call pinned) is true iff the result is non-empty and never an error. CNV3/CNV4: for each of the 8 targets x 11 input item forms (every System type, a FHIR primitive, a complex element) SCCP with the item's dynamic type pinned shows that toT never returns an error for a single item and that every non-empty result holds a value of dynamic type T; multi-item input is an error. TAB1: the table binds toT/convertsToT to the implementation of that name.",
